@@ -191,8 +191,24 @@ def seeded(ctx):
         d['actions'] = list(range(8))
         d['term'] = {'name': 'reach_exit'}
         sp_descs.append(d)
+    # stochastic dynamics written as a chain of chains (the random function inside an inner chain): the generator must reach every level
+    nest_descs = []
+    for _ in range(4 if ctx.tier == 'quick' else 30):
+        d = envs.rand_env(r)
+        if r.random() < 0.6:
+            d['reset'] = {'name': 'dynamic_obstacles', 'shape': (r.randint(5, 7), r.randint(5, 7)), 'num_obstacles': r.randint(2, 4), 'random_agent': r.random() < 0.5}
+            d['trans'] = r.choice([[0, 1, 3], [3, 0, 1], [0, 3], [3, 1]])
+        else:
+            d['reset'] = {'name': 'teleport', 'shape': (r.randint(5, 7), r.randint(5, 7))}
+            d['trans'] = r.choice([[0, 1, 6], [0, 6], [6, 0, 1]])
+        n = len(d['trans'])
+        d['trans_nesting'] = r.choice([[n], [1, 2], [2, 1]]) if n == 3 else [n]
+        d['actions'] = list(range(8))
+        d['term'] = {'name': 'reach_exit'}
+        d['reward'] = {'name': 'reduce_sum', 'parts': [{'name': 'living_reward', 'params': [-0.05]}]}
+        nest_descs.append(d)
     for name, data, desc in (jobs + [(f'random-{i}', None, d) for i, d in enumerate(rand_descs)] + [(f'memo-{i}', None, d) for i, d in enumerate(memo_descs)]
-                             + [(f'sp-{i}', None, d) for i, d in enumerate(sp_descs)]):
+                             + [(f'sp-{i}', None, d) for i, d in enumerate(sp_descs)] + [(f'nested-{i}', None, d) for i, d in enumerate(nest_descs)]):
         def build():
             return factory_env_from_data(copy.deepcopy(data)) if data is not None else comp.build_env(desc)
         try:
